@@ -439,7 +439,7 @@ class SimpleGaussianError(GaussianErrorBase):
         else:
             if self.reference is None:
                 raise AttributeError("Setting 'absolute' errors for error object declared 'relative', but 'reference' not set!")
-            self._err = err_val * self.reference
+            self._err = err_val * np.abs(self.reference)
             self._err_rel = err_val
 
         # invalidate cov mats
